@@ -9,9 +9,11 @@ VERIF = os.path.dirname(os.path.dirname(os.path.dirname(os.path.abspath(__file__
 
 # valid / exempt expressions (Rust closures coerced to fn pointers)
 ALWAYS, NONE = "generic::always", "generic::none"
-CAST5_VALID = "|b| b[core::mem::offset_of!(crate::Cast5, small_key)] <= 1"
-CAST5_EXEMPT = ("|i| { let m = core::mem::offset_of!(crate::Cast5, masking); let r = core::mem::offset_of!(crate::Cast5, rotate); "
-                "let s = core::mem::offset_of!(crate::Cast5, small_key); !((i >= m && i < m + 64) || (i >= r && i < r + 16) || i == s) }")
+# Cast5 is the only struct with padding (and a bool): validity and padding come from the layout table that the shadow
+# generator derives from the struct definition in the CURRENT source (variant key `layouts`), never from names kept here.
+CAST5_VALID = "crate::verif_kani::layout::cast5_valid"
+CAST5_EXEMPT = "crate::verif_kani::layout::cast5_exempt"
+LAYOUTS = {"cast5": [("src/lib.rs", "Cast5", "crate::Cast5")]}
 TWOFISH_VALID = "|b| { let o = core::mem::offset_of!(crate::Twofish, start); u64::from_le_bytes([b[o], b[o+1], b[o+2], b[o+3], b[o+4], b[o+5], b[o+6], b[o+7]]) <= 2 }"
 
 
@@ -24,7 +26,16 @@ def T(crate, ty, ident, alg, klen, bs, valid=ALWAYS, exempt=NONE, dirs=("enc", "
 
 # key schedules stubbed out in the C11 accept/reject harnesses (the verdict Ok/Err does not depend on them; what the
 # schedule computes is decided by the conformance harnesses of C09)
-BLOWFISH_KS = ("pub fn stub_bf_expand<T: byteorder::ByteOrder>(_b: &mut crate::Blowfish<T>, _key: &[u8]) {}\n",
+BLOWFISH_KS = ("// cheap key-dependent stand-in for the 521-encryption key schedule (XORs the key bytes, cycled, into the first 72\n"
+               "// bytes of the state; no field is named)\n"
+               "pub fn stub_bf_expand<T: byteorder::ByteOrder>(b: &mut crate::Blowfish<T>, key: &[u8]) {\n"
+               "    let p = b as *mut crate::Blowfish<T> as *mut u8;\n"
+               "    let mut i = 0;\n"
+               "    while i < 72 && !key.is_empty() {\n"
+               "        unsafe { *p.add(i) ^= key[i % key.len()] };\n"
+               "        i += 1;\n"
+               "    }\n"
+               "}\n",
                "(crate::Blowfish::expand_key, stub_bf_expand)")
 CAST5_KS = ("pub fn stub_c5_ks(_c: &mut crate::Cast5, _key: &[u8]) {}\n", "(crate::Cast5::key_schedule, stub_c5_ks)")
 
@@ -71,6 +82,138 @@ for w, r, b in [("u32", 12, 16), ("u16", 16, 8), ("u8", 12, 4), ("u64", 24, 24),
     TYPES.append(T("rc5", f"crate::RC5<{w}, U{r}, U{b}>", "RC5", ["rc5", str(8 * wb) if False else w, str(r), str(b)], b, 2 * wb, uses=RC5_USES))
 
 
+# Hand-written per-crate additions appended to the generated xcut.rs: C11 constructor-pair relations at the public API
+# (no private helper is named, so a refactoring of the padding code cannot break the harness, only the property).
+EXTRA = {
+    "serpent": r'''
+// ---- C11: a short Serpent key and its explicitly padded 32-byte form (key || 0x01 || 0x00...) give the same cipher
+fn state_bytes_eq<T>(a: &core::mem::MaybeUninit<T>, b: &core::mem::MaybeUninit<T>) -> bool {
+    let mut i = 0;
+    while i < core::mem::size_of::<T>() {
+        if generic::peek(a, i) != generic::peek(b, i) {
+            return false;
+        }
+        i += 1;
+    }
+    true
+}
+//@ harness name=serpent_short_eq_padded prop=C11 tier=quick bits=260 est=200 desc="Serpent::new_from_slice(&k[..len]) for len symbolic in 16..=31 yields the same round keys as new_from_slice of the explicit 32-byte form k[..len] || 0x01 || 0x00..; all key bytes symbolic; public API only"
+verif_harness! {
+    name: serpent_short_eq_padded,
+    bytes: 33,
+    unwind: 140,
+    prop: |inp| {
+        use cipher::KeyInit;
+        let key: [u8; 32] = take(&inp[..], 0);
+        let len = 16 + (inp[32] & 15) as usize;
+        let mut padded = [0u8; 32];
+        let mut i = 0;
+        while i < 32 {
+            if i < len { padded[i] = key[i]; } else if i == len { padded[i] = 1; }
+            i += 1;
+        }
+        let a = match crate::Serpent::new_from_slice(&key[..len]) { Ok(c) => core::mem::MaybeUninit::new(c), Err(_) => return Some(false) };
+        let b = match crate::Serpent::new_from_slice(&padded[..]) { Ok(c) => core::mem::MaybeUninit::new(c), Err(_) => return Some(false) };
+        Some(state_bytes_eq(&a, &b))
+    }
+}
+''',
+    "cast6": r'''
+// ---- C11: a 16/20/24/28-byte CAST-256 key and its zero-padded 32-byte form give the same cipher
+//@ harness name=cast6_short_eq_padded prop=C11 tier=quick bits=258 est=300 desc="Cast6::new_from_slice(&k[..len]) for len in {16,20,24,28} (symbolic choice) yields the same masking/rotation keys as new_from_slice of k[..len] zero-padded to 32 bytes; all key bytes symbolic; public API only"
+verif_harness! {
+    name: cast6_short_eq_padded,
+    bytes: 33,
+    unwind: 140,
+    prop: |inp| {
+        use cipher::KeyInit;
+        let key: [u8; 32] = take(&inp[..], 0);
+        let len = 16 + 4 * (inp[32] & 3) as usize;
+        let mut padded = [0u8; 32];
+        let mut i = 0;
+        while i < len {
+            padded[i] = key[i];
+            i += 1;
+        }
+        let a = match crate::Cast6::new_from_slice(&key[..len]) { Ok(c) => core::mem::MaybeUninit::new(c), Err(_) => return Some(false) };
+        let b = match crate::Cast6::new_from_slice(&padded[..]) { Ok(c) => core::mem::MaybeUninit::new(c), Err(_) => return Some(false) };
+        let mut j = 0;
+        while j < core::mem::size_of::<crate::Cast6>() {
+            vcheck!(generic::peek(&a, j) == generic::peek(&b, j));
+            j += 1;
+        }
+        Some(true)
+    }
+}
+''',
+    "cast5": r'''
+// ---- C11: a CAST5 key of 11..=15 bytes (above 80 bits) and its zero-padded 16-byte form give the same cipher.
+// The macro-expanded key schedule is replaced by a stub that stores the 16 key bytes it receives into the state
+// (an injective function of its argument), so state equality <=> the real schedule would have received the same padded key
+// and the round-count flag agrees; the schedule itself is decided by the conformance harnesses of C09.
+pub fn stub_c5_ks_record(c: &mut crate::Cast5, key: &[u8]) {
+    // write the key bytes over the first 16 bytes of the instance's storage, keep the rest (incl. the round-count flag)
+    let p = c as *mut crate::Cast5 as *mut u8;
+    let mut i = 0;
+    while i < 16 && i < key.len() {
+        unsafe { *p.add(i) = key[i] };
+        i += 1;
+    }
+}
+//@ harness name=cast5_short_eq_padded prop=C11 tier=quick bits=136 stub=1 est=60 desc="Cast5::new_from_slice(&k[..len]) for len symbolic in 11..=15 and new_from_slice of k[..len] zero-padded to 16 bytes reach the key schedule with the same 16 bytes and the same round-count flag (schedule replaced by an argument-recording stub); all key bytes symbolic"
+verif_harness! {
+    name: cast5_short_eq_padded,
+    bytes: 17,
+    unwind: 140,
+    stubs: [(crate::Cast5::key_schedule, stub_c5_ks_record)],
+    prop: |inp| {
+        use cipher::KeyInit;
+        let key: [u8; 16] = take(&inp[..], 0);
+        let len = 11 + (inp[16] % 5) as usize;
+        let mut padded = [0u8; 16];
+        let mut i = 0;
+        while i < len {
+            padded[i] = key[i];
+            i += 1;
+        }
+        let a = match crate::Cast5::new_from_slice(&key[..len]) { Ok(c) => core::mem::MaybeUninit::new(c), Err(_) => return Some(false) };
+        let b = match crate::Cast5::new_from_slice(&padded[..]) { Ok(c) => core::mem::MaybeUninit::new(c), Err(_) => return Some(false) };
+        let mut j = 0;
+        while j < core::mem::size_of::<crate::Cast5>() {
+            if !crate::verif_kani::layout::cast5_exempt(j) {
+                vcheck!(generic::peek(&a, j) == generic::peek(&b, j));
+            }
+            j += 1;
+        }
+        Some(true)
+    }
+}
+''',
+    "rc2": r'''
+// ---- C11: Rc2 from a slice == Rc2 with effective key length 8 x len
+//@ harness name=rc2_slice_eq_eff_len prop=C11 tier=quick bits=136 est=200 desc="Rc2::new_from_slice(&k[..len]) and Rc2::new_with_eff_key_len(&k[..len], 8*len) have the same expanded key for len symbolic in 1..=16 (quick bound; all key bytes symbolic)"
+verif_harness! {
+    name: rc2_slice_eq_eff_len,
+    bytes: 17,
+    unwind: 140,
+    prop: |inp| {
+        use cipher::KeyInit;
+        let key: [u8; 16] = take(&inp[..], 0);
+        let len = 1 + (inp[16] & 15) as usize;
+        let a = match crate::Rc2::new_from_slice(&key[..len]) { Ok(c) => core::mem::MaybeUninit::new(c), Err(_) => return Some(false) };
+        let b = core::mem::MaybeUninit::new(crate::Rc2::new_with_eff_key_len(&key[..len], 8 * len));
+        let mut j = 0;
+        while j < core::mem::size_of::<crate::Rc2>() {
+            vcheck!(generic::peek(&a, j) == generic::peek(&b, j));
+            j += 1;
+        }
+        Some(true)
+    }
+}
+''',
+}
+
+
 def ident_of(t):
     return t["ty"].split("::")[-1].replace("<", "_").replace(">", "").replace(",", "_").replace(" ", "").lower()
 
@@ -108,6 +251,14 @@ def emit(crate, rows):
         o.append('//@ harness name=%s_zeroize prop=C16 tier=quick bits=64 variants=%s+zeroize desc="drop_in_place of an arbitrary-state %s (zeroize feature) leaves every non-padding byte of its storage zero"\n' % (n, crate, ty))
         o.append("g_zeroize!(%s_zeroize, %s, %s, %s);\n" % (n, ty, t["valid"], t["exempt"]))
         tier = "thorough" if t["heavy"] else "quick"
+        # C15: construction history (process-wide state written by constructors) and mixed-direction history
+        ks = (", stubs: [%s]" % stub_pair) if stub_pair else ""
+        o.append('//@ harness name=%s_ctor_history prop=C15 tier=%s bits=%d %sdesc="%s: new(k2) in a fresh process, then new(k1), then new(k2) again gives the same state as the first time, for all keys k1, k2 (no process-wide state written by construction changes a later construction)%s"\n'
+                 % (n, "quick" if (stub_pair or not t["heavy"]) else "thorough", 16 * kl, "stub=1 " if stub_pair else "", ty, "; key schedule replaced by a cheap key-dependent stub" if stub_pair else ""))
+        o.append("g_ctor_history!(%s_ctor_history, %s, %d, %s%s);\n" % (n, ty, kl, t["exempt"], ks))
+        if set(t["dirs"]) == {"enc", "dec"}:
+            o.append('//@ harness name=%s_mixed prop=C15,C20 tier=%s bits=%d desc="%s: on one arbitrary-state instance the history enc(x); dec(x); dec(y); enc(y) returns for dec(x) and enc(y) what a pristine instance with the same state returns (no memoisation across directions), instance bytes unchanged"\n' % (n, tier, 16 * bs + 64, ty))
+            o.append("g_mixed!(%s_mixed, %s, %d, %s);\n" % (n, ty, bs, t["valid"]))
         for d in t["dirs"]:
             if t["frame"]:
                 o.append('//@ harness name=%s_frame_%s prop=C15,C20 tier=%s bits=%d desc="%s: %s_block on an arbitrary valid state returns for every block (no panic / overflow / bounds failure); the history op(x); op(y); op(x) on one instance gives equal first and third results and leaves every byte of the instance unchanged; nothing abstracted"\n' % (n, d, tier, 16 * bs + 64, ty, "encrypt" if d == "enc" else "decrypt"))
@@ -115,6 +266,7 @@ def emit(crate, rows):
             if t["blocks"]:
                 o.append('//@ harness name=%s_blocks_%s prop=C04,C20 tier=%s bits=%d desc="%s (%s): multi-block in place, multi-block b2b and single b2b calls with n symbolic in 0..=%d equal per-block in-place calls; separate input unchanged; output blocks >= n untouched; arbitrary valid state"\n' % (n, d, tier, 8 * bs * t["nb"] + 72, ty, d, t["nb"]))
                 o.append("g_blocks1!(%s_blocks_%s, %s, %d, %d, %s, %s);\n" % (n, d, ty, bs, t["nb"], t["valid"], d))
+    o.append(EXTRA.get(crate, ""))
     p = os.path.join(VERIF, "harness", crate, "xcut.rs")
     os.makedirs(os.path.dirname(p), exist_ok=True)
     open(p, "w").write("".join(o))
@@ -129,8 +281,9 @@ def main():
     # plan fragment
     lines = ['"""GENERATED by gen_xcut.py: cross-cutting harness files per crate."""\n', "VARIANTS = {\n"]
     for c in crates:
-        lines.append('    "%s": dict(crate="%s", common_mods=["uf", "generic"]),\n' % (c, c))
-        lines.append('    "%s+zeroize": dict(crate="%s", features=["zeroize"], common_mods=["uf", "generic"]),\n' % (c, c))
+        lay = (", layouts=%r" % LAYOUTS[c]) if c in LAYOUTS else ""
+        lines.append('    "%s": dict(crate="%s", common_mods=["uf", "generic"]%s),\n' % (c, c, lay))
+        lines.append('    "%s+zeroize": dict(crate="%s", features=["zeroize"], common_mods=["uf", "generic"]%s),\n' % (c, c, lay))
     lines.append("}\nPLAN = {\n")
     for prop in ("C04", "C11", "C13", "C15", "C19", "C20"):
         lines.append('    "%s": [%s],\n' % (prop, ", ".join('("%s", ["%s/xcut.rs"])' % (c, c) for c in crates)))
